@@ -52,6 +52,7 @@ Record case := mkCase {
   c_spreads : list Z;              (* pool i (id = i) has spread factor nth i *)
   c_fees : list Z;                 (* nd x nd, row-major: taker fee of the ordered pair (in, out) *)
   c_wl : bool;                     (* trader on the reduced-fee whitelist *)
+  c_skim : list Z;                 (* per denom: skim percent of its taker-fee share agreement, -1 = none *)
   c_bal0 : list (list Z);          (* rows: trader, pool 0 .. np-1, collector, community pool; columns: denoms *)
   c_tbl : list tentry;
   c_ops : list op;
@@ -84,7 +85,8 @@ Fixpoint mk_pools (tbl : list tentry) (i : Z) (spreads : list Z) : list (Z * tpo
 Definition init_state (c : case) : state TablePool :=
   @mkState TablePool (mk_pools (c_tbl c) 0 (c_spreads c)) (init_bank c)
           (fun a b => nthz (c_fees c) (a * c_nd c + b) 0)
-          (fun a => match a with Trader _ => c_wl c | _ => false end).
+          (fun a => match a with Trader _ => c_wl c | _ => false end)
+          (fun d => let v := nthz (c_skim c) d (-1) in if v <? 0 then None else Some v).
 
 Definition code (e : err) : Z := match e with ELimit => 1 | _ => 2 end.
 Definition flat_res (r : result Z) : list Z := match r with Ok v => [0; v] | Err e => [code e; 0] end.
